@@ -271,6 +271,15 @@ def build_tu(vu, work, canary=None):
                     e.text = "\n".join(copies)
                     e.rewrites.append("R4 monomorphised over %s = %s" % (par, types))
                 for key in sorted(kv):
+                    if key.startswith("elide"):
+                        # a stretch of the body that only produces diagnostics text and uses constructs the front end rejects
+                        # (auto, reverse iterators) is removed; must fire exactly once; the evidence says how many lines
+                        m_ = re.search(kv[key], e.text, re.S)
+                        if not m_ or len(re.findall(kv[key], e.text, re.S)) != 1:
+                            raise X.ExtractionError("elide %r did not fire exactly once on %s" % (kv[key], e.qualname))
+                        e.text = e.text[:m_.start()] + "/* VU: %d lines of diagnostics output elided */\n" % m_.group(0).count("\n") + e.text[m_.end():]
+                        e.rewrites.append("elided %d lines matching %r (diagnostics output only)" % (m_.group(0).count("\n"), kv[key]))
+                        continue
                     if key.startswith("osubst"):
                         # optional rewrite (front-end workaround that is only needed while the construct is present)
                         sep = kv[key][0]
